@@ -332,7 +332,7 @@ func coreHistory(c *Ctx, d *coreDrv) {
 					s.gang[id] = true
 				}
 				if c.chance(0.1) {
-					op["tags"] = map[string]interface{}{"yunikorn.apache.org/max-applications": fmt.Sprint(1 + c.pick(2))}
+					op["tags"] = map[string]interface{}{"namespace.resourcemaxapps": fmt.Sprint(1 + c.pick(2))}
 				}
 				emitAndAbsorb(op)
 				if !s.apps[id] {
